@@ -114,6 +114,7 @@ typedef pthread_t puthread_hdl;
 struct PUThread_ {
 	PUThreadBase	base;
 	puthread_hdl	hdl;
+	pboolean	joined;
 };
 
 struct PUThreadKey_ {
@@ -374,8 +375,14 @@ p_uthread_exit_internal (void)
 void
 p_uthread_wait_internal (PUThread *thread)
 {
+	/* pthread_join() must not be called again for an already joined thread */
+	if (thread->joined == TRUE)
+		return;
+
 	if (P_UNLIKELY (pthread_join (thread->hdl, NULL) != 0))
 		P_ERROR ("PUThread::p_uthread_wait_internal: pthread_join() failed");
+	else
+		thread->joined = TRUE;
 }
 
 void
